@@ -453,6 +453,7 @@ class Engine:
         self.max_depth = max_depth
         self.counter = itertools.count()
         self.raise_log = []
+        self.origin = {}      # term -> provenance record (for the abstract string domain, sa.strlang)
         self._pure = {}
         self._stable_global = {}
         self.sccs = None
@@ -1214,6 +1215,43 @@ class Engine:
             return [(s, Unk(self.fresh("truediv")))]
         return [(s, Unk(self.fresh("binop")))]
 
+    def _expand_format(self, template, args):
+        import string
+        parts = []
+        auto = 0
+        try:
+            fields = list(string.Formatter().parse(template))
+        except ValueError:
+            return None
+        for lit_, name, spec, conv in fields:
+            if lit_:
+                parts.append(("lit", lit_))
+            if name is None:
+                continue
+            if conv or (name not in ("",) and not name.isdigit()):
+                return None
+            idx = auto if name == "" else int(name)
+            if name == "":
+                auto += 1
+            if idx >= len(args):
+                return None
+            a = args[idx]
+            if not spec:
+                if isinstance(a, Num):
+                    t = ("str", (vkey(a),))
+                    self.origin[t] = ("str", a)
+                    parts.append(("sym", t))
+                else:
+                    p = self._str_parts(a)
+                    if p is None:
+                        return None
+                    parts.extend(p)
+            else:
+                t = ("fmt", spec, vkey(a))
+                self.origin[t] = ("fmt", spec, a)
+                parts.append(("sym", t))
+        return tuple(parts)
+
     def _is_str(self, v):
         return isinstance(v, Str) or (isinstance(v, Con) and isinstance(v.value, str))
 
@@ -1386,6 +1424,7 @@ class Engine:
                         res = Con(base.value[lo:hi:stp])
                 if res is None:
                     res = Unk(("slice", vkey(base), tuple(vkey(x) for x in vs[1:]), unparse(e.slice), s2.epoch if not isinstance(base, (Con, Unk)) else 0))
+                    self.origin[res.term] = ("slice", base, e.slice.lower is not None, e.slice.upper is not None, vs[1:])
                 out.append((s2, res))
             return out
         for s2, (base, idx) in self.eval_seq(fr, [e.value, e.slice], s):
@@ -1423,7 +1462,9 @@ class Engine:
             self._raise(fr, e, "KeyError", s)
             self._raise(fr, e, "IndexError", s)
         if isinstance(base, Unk) and isinstance(idx, Num) and idx.lin.is_const():
-            return [(s, Unk(("item", base.term, int(idx.lin.k))))]
+            t = ("item", base.term, int(idx.lin.k))
+            self.origin.setdefault(t, ("item", base, int(idx.lin.k)))
+            return [(s, Unk(t))]
         return [(s, Unk(("index", vkey(base), vkey(idx), s.epoch)))]
 
     def _ranged(self, s, term, values):
@@ -1732,6 +1773,21 @@ class Engine:
         res = self.hooks.on_call(self, fr, e, ("method", attr, base), args, kwargs, s)
         if res is not None:
             return res if isinstance(res, list) else [(s, res)]
+        if isinstance(base, Ref) and base.kind == "folded" and isinstance(base.target, FPattern) and \
+                attr in ("match", "fullmatch") and len(args) == 1:
+            t = ("match", base.name, attr, vkey(args[0]))
+            self.origin[t] = ("match", base, attr, args[0])
+            return [(s, NONE), (s, Unk(t))]
+        if isinstance(base, Unk) and isinstance(base.term, tuple) and base.term[0] == "match" and attr == "groups" and not args:
+            import re as _re
+            pat = self.origin[base.term][1].target
+            n = _re.compile(pat.pattern, pat.flags).groups
+            items = []
+            for k in range(1, n + 1):
+                t = ("group", base.term, k)
+                self.origin[t] = ("group", self.origin[base.term], k)
+                items.append(Unk(t))
+            return [(s, Tup(items))]
         if isinstance(base, Ref) and base.kind == "folded" and isinstance(base.target, dict):
             if attr == "get" and args:
                 default = args[1] if len(args) > 1 else NONE
@@ -1750,9 +1806,27 @@ class Engine:
                     return [(s, self.wrap(getattr(base.value, attr)(*pa)))]
                 except Exception:
                     pass
-        if (self._is_str(base)) and attr in ("format", "join", "lower", "upper", "capitalize", "strip", "lstrip", "rstrip",
-                                              "replace", "title", "zfill"):
+        if isinstance(base, Con) and isinstance(base.value, str) and attr == "format" and not kwargs:
+            parts = self._expand_format(base.value, args)
+            if parts is not None:
+                return [(s, Str(parts))]
+        if isinstance(base, Con) and isinstance(base.value, str) and attr == "join" and len(args) == 1 and isinstance(args[0], Tup):
+            parts = []
+            okj = True
+            for i, it in enumerate(args[0].items):
+                if i and base.value:
+                    parts.append(("lit", base.value))
+                p = self._str_parts(it)
+                if p is None:
+                    okj = False
+                    break
+                parts.extend(p)
+            if okj:
+                return [(s, Str(tuple(parts)))]
+        if (self._is_str(base) or isinstance(base, Unk)) and attr in ("format", "join", "lower", "upper", "capitalize", "strip",
+                                                                     "lstrip", "rstrip", "replace", "title", "zfill"):
             term = ("bmeth", attr, vkey(base), tuple(vkey(a) for a in args), 0, 0)
+            self.origin[term] = ("bmeth", attr, base, list(args))
             return [(s, Str((("sym", term),)))]
         if attr in ("find", "rfind", "index", "count"):
             t = self.fresh(attr)
@@ -1836,6 +1910,7 @@ class Engine:
             if isinstance(a, Ref) and a.kind == "folded":
                 return [(s, Num(Lin.const(len(a.target))))]
             t = ("len", vkey(a), s.epoch if not isinstance(a, (Unk, Con, Str)) else 0)
+            self.origin[t] = ("len", a)
             s2 = s.copy()
             s2.add_lin(ge(Lin.var(t), 0))
             return [(s2, Num(Lin.var(t)))]
@@ -1844,6 +1919,7 @@ class Engine:
             if short == "int" and n is not None:
                 return [(s, n)]
             t = self.fresh(short)
+            self.origin[t] = (short, args[0])
             s2 = s.copy()
             if short == "abs":
                 s2.add_lin(ge(Lin.var(t), 0))
@@ -1882,7 +1958,10 @@ class Engine:
                 self._raise(fr, e, "StopIteration", s)
             return [(s2, Unk(("next", vkey(args[0]) if args else None, next(self.counter))))]
         if short in ("str", "repr"):
-            return [(s, Unk(("str", tuple(vkey(a) for a in args))))]
+            t = ("str", tuple(vkey(a) for a in args))
+            if len(args) == 1:
+                self.origin[t] = ("str", args[0])
+            return [(s, Unk(t))]
         if short in ("sorted", "set", "dict", "frozenset", "sum", "any", "all", "zip", "map", "filter", "iter",
                      "enumerate", "reversed", "tuple", "list", "min", "max", "collections.deque", "itertools.product",
                      "itertools.chain", "itertools.filterfalse", "bool", "print", "warnings.warn", "ord", "chr",
